@@ -6,7 +6,12 @@
     - src/pptx/shapes/shapetree.py: _add_cxnSp (no validation: values go through a
       string template);
     - src/pptx/oxml/shapes/groupshape.py: _child_extents and recalculate_extents
-      (recursive upward from the group that received the new member);
+      (recursive upward from the group that received the new member; a nested group
+      counts with its own a:off / a:ext);
+    - src/pptx/shapes/base.py left / top / width / height setters over
+      oxml/shapes/shared.py BaseShapeElement.x / y / cx / cy (validated, one attribute
+      written, nothing recalculated) on an existing member, shape or group, and group
+      frames written by other producers (a:off / a:ext different from a:chOff / a:chExt);
     - src/pptx/shapes/freeform.py: FreeformBuilder (rounded vertices, shape_offset,
       _dx/_dy, _left/_top/_width/_height, _local_to_shape) with the int-times-float
       product modelled as an IEEE-754 binary64 operation.
@@ -276,6 +281,120 @@ Fixpoint consistentb (s : shape) : bool :=
   | Leaf _ _ _ _ => true
   | Grp g kids => box_okb g kids && forallb consistentb kids
   end.
+
+(* ---- moving or resizing an existing member; frames written by another producer ---- *)
+
+(** BaseShape.left / top / width / height of an existing member (p:sp, p:pic, p:cxnSp
+    or p:grpSp): the setter of BaseShapeElement validates the value (ST_Coordinate for
+    x / y, ST_PositiveCoordinate for cx / cy, refusal is a ValueError raised before
+    anything is written) and then writes that one attribute of a:off or a:ext.  On a
+    group this is a:off / a:ext of grpSpPr/a:xfrm only: a:chOff / a:chExt keep their
+    values, the members are not touched and NO group is recalculated, neither the
+    group itself nor the one that contains the member. *)
+Inductive fld := FLeft | FTop | FWidth | FHeight.
+
+Definition fld_ok (f : fld) (v : Z) : bool :=
+  match f with FLeft | FTop => coord_ok v | FWidth | FHeight => pos_ok v end.
+
+Definition set_fld (f : fld) (v : Z) (s : shape) : shape :=
+  match s with
+  | Leaf x y cx cy =>
+      match f with
+      | FLeft => Leaf v y cx cy | FTop => Leaf x v cx cy
+      | FWidth => Leaf x y v cy | FHeight => Leaf x y cx v
+      end
+  | Grp g kids =>
+      Grp (match f with
+           | FLeft => mkG v (g_y g) (g_cx g) (g_cy g) (g_chx g) (g_chy g) (g_chcx g) (g_chcy g)
+           | FTop => mkG (g_x g) v (g_cx g) (g_cy g) (g_chx g) (g_chy g) (g_chcx g) (g_chcy g)
+           | FWidth => mkG (g_x g) (g_y g) v (g_cy g) (g_chx g) (g_chy g) (g_chcx g) (g_chcy g)
+           | FHeight => mkG (g_x g) (g_y g) (g_cx g) v (g_chx g) (g_chy g) (g_chcx g) (g_chcy g)
+           end) kids
+  end.
+
+Definition assign_node (f : fld) (v : Z) (s : shape) : res shape :=
+  if fld_ok f v then Ok (set_fld f v s) else Err ValueErr.
+
+(** The a:xfrm of a group as another producer wrote it (a group that was moved or
+    scaled as a whole has a:off / a:ext different from a:chOff / a:chExt): all eight
+    numbers are replaced, the members stay.  A path that leads to something that is
+    not a group is an IndexErr of the test driver. *)
+Definition reframe_node (g0 : gxf) (s : shape) : res shape :=
+  match s with
+  | Leaf _ _ _ _ => Err IndexErr
+  | Grp _ kids => Ok (Grp g0 kids)
+  end.
+
+(** Apply [u] to the member reached from [s] by the child indices [p].  The groups
+    walked through keep their xfrm: nothing above the member is recalculated. *)
+Fixpoint upd_in (p : list nat) (u : shape -> res shape) (s : shape) {struct p} : res shape :=
+  match p with
+  | [] => u s
+  | i :: p' =>
+      match s with
+      | Leaf _ _ _ _ => Err IndexErr
+      | Grp g kids =>
+          match nth_error kids i with
+          | None => Err IndexErr
+          | Some k => bind (upd_in p' u k) (fun k' => Ok (Grp g (set_nth i k' kids)))
+          end
+      end
+  end.
+
+(** On a slide; the empty path is the slide itself, which has no frame. *)
+Definition slide_upd (p : list nat) (u : shape -> res shape) (sl : slide) : res slide :=
+  match p with
+  | [] => Err IndexErr
+  | i :: p' =>
+      match nth_error sl i with
+      | None => Err IndexErr
+      | Some k => bind (upd_in p' u k) (fun k' => Ok (set_nth i k' sl))
+      end
+  end.
+
+(** Histories of additions, assignments to existing members, frames rewritten by
+    another producer, and save + re-open (which keeps every number). *)
+Inductive hop :=
+| HAdd (p : list nat) (new : shape)
+| HSet (p : list nat) (f : fld) (v : Z)
+| HFrame (p : list nat) (g : gxf)
+| HReopen.
+
+Definition hstep (sl : slide) (op : hop) : res slide :=
+  match op with
+  | HAdd p new => slide_add p new sl
+  | HSet p f v => slide_upd p (assign_node f v) sl
+  | HFrame p g => slide_upd p (reframe_node g) sl
+  | HReopen => Ok sl
+  end.
+
+Fixpoint hist_run (sl : slide) (ops : list hop) : res slide :=
+  match ops with
+  | [] => Ok sl
+  | op :: r => bind (hstep sl op) (fun sl' => hist_run sl' r)
+  end.
+
+Definition hop_of_gop (op : gop) : hop := HAdd (go_path op) (member_shape (go_new op)).
+
+(** The member at a path below a shape / on a slide. *)
+Definition kids_of (s : shape) : list shape :=
+  match s with Leaf _ _ _ _ => [] | Grp _ kids => kids end.
+
+Fixpoint sub_at (q : list nat) (s : shape) {struct q} : option shape :=
+  match q with
+  | [] => Some s
+  | i :: q' => match nth_error (kids_of s) i with Some k => sub_at q' k | None => None end
+  end.
+
+Definition slide_at (q : list nat) (sl : slide) : option shape :=
+  match q with
+  | [] => None
+  | i :: q' => match nth_error sl i with Some k => sub_at q' k | None => None end
+  end.
+
+(** This one shape, if a group, has the bounding box of its members' own frames. *)
+Definition shape_okb (s : shape) : bool :=
+  match s with Leaf _ _ _ _ => true | Grp g kids => box_okb g kids end.
 
 (* ------------------------------------------------------------------ freeform *)
 
